@@ -1057,6 +1057,10 @@ class GroupbyAgg(Op):
             args["agg"] = {c: draw(s.sampled_from(["sum", "min", "max", "count", "mean"])) for c in _subset(draw, vals, max_size=2)}
         if draw(s.integers(0, 5)) == 0:
             args["split_every"] = 2
+        # known finding D44 (first/last through the shuffle-based reduction lose the row order under the disk
+        # shuffle): excluded by construction here, the C02 catalogue keeps canary templates for it
+        if (args["how"] in ("first", "last") or any(v in ("first", "last") for v in (args.get("agg") or {}).values())) and args["split_out"] != 1:
+            args["split_out"] = 1
         return args
 
     @staticmethod
